@@ -2,12 +2,15 @@ package main
 
 import (
 	"encoding/xml"
+	"encoding/hex"
 	"fmt"
 	"io"
 	"strings"
 	"time"
+	"unicode/utf8"
 
 	"github.com/jf-tech/omniparser/idr"
+	"golang.org/x/net/html/charset"
 
 	"verifharness/vh"
 )
@@ -294,6 +297,7 @@ func nsWF(items []*xn) bool {
 
 func parseDOM(text string) ([]*xn, error) {
 	d := xml.NewDecoder(strings.NewReader(text))
+	d.CharsetReader = charset.NewReaderLabel
 	var items []*xn
 	var stack []*xn
 	add := func(n *xn) {
@@ -389,6 +393,7 @@ func coqXDoc(items []*xn) string {
 // terms and as the event strings used by the Go-side faithfulness oracle.
 func xmlTokens(text string) (coq []string, evs []string, err error) {
 	d := xml.NewDecoder(strings.NewReader(text))
+	d.CharsetReader = charset.NewReaderLabel // the documented charset handling of the XML reader
 	for {
 		t, e := d.Token()
 		if e == io.EOF {
@@ -462,6 +467,14 @@ type textCase struct {
 	Kind   string `json:"kind"`
 	Text   string `json:"text"`
 	Schema string `json:"schema,omitempty"` // json-seq only: a schema other than the harness's
+	Hex    string `json:"hex,omitempty"`    // the document bytes, when they are not UTF-8 (then text is "")
+}
+
+func mkTextCase(kind, text string) textCase {
+	if utf8.ValidString(text) {
+		return textCase{Kind: kind, Text: text}
+	}
+	return textCase{Kind: kind, Hex: hex.EncodeToString([]byte(text))}
 }
 
 // runXML reads one XML text with target ".", evaluates the property oracle (the tree equals the
@@ -469,7 +482,7 @@ type textCase struct {
 // order, character data as encoding/xml reports it) and emits the correspondence case.
 // gen is the generator's DOM (nil for raw texts: the DOM is then read back with RawToken).
 func runXML(sum *vh.Summary, cw *vh.CaseWriter, text string, gen []*xn, verbose bool) (failed bool) {
-	cs := textCase{Kind: "xml", Text: text}
+	cs := mkTextCase("xml", text)
 	if sum != nil {
 		vh.Current(opts, cs)
 	}
@@ -1144,5 +1157,99 @@ func crDocs(sum *vh.Summary, cw *vh.CaseWriter) {
 		sum.Count("xml:"+text, true)
 		sum.Hist("xml:fixed-cr-reference-doc")
 		runXML(sum, cw, text, nil, false)
+	}
+}
+
+// ---- documents in a declared non-UTF-8 encoding ----------------------------------------------------------
+
+// The reader hands the label of the XML declaration to charset.NewReaderLabel (the WHATWG label
+// table: iso-8859-1 / latin1 / us-ascii mean windows-1252, iso-8859-9 means windows-1254, gb2312
+// means GBK, ...).  The documents below are BYTES: ASCII markup plus bytes >= 0x80 - in particular
+// 0x80..0x9F, where the code pages differ - in text, attribute values and (letters only) names.
+// Oracle as for every XML case: the tree is what encoding/xml with that CharsetReader reports.
+var encLabels = []string{"ISO-8859-1", "iso-8859-1", "latin1", "Latin1", "l1", "us-ascii", "ascii", "windows-1252", "cp1252",
+	"iso-8859-9", "latin5", "windows-1254", "iso-8859-15", "iso-8859-2", "iso-8859-7", "koi8-r", "windows-1251", "ibm866", "macintosh",
+	"UTF-8", "utf-8", "gb2312", "gbk", "GB2312", "big5", "euc-kr", "shift_jis", "windows-874", "iso-8859-8"}
+
+func genEncodedXML(r *vh.Rng, label string) string {
+	multi := map[string]bool{"gb2312": true, "gbk": true, "GB2312": true, "big5": true, "euc-kr": true, "shift_jis": true}[label]
+	utf := strings.EqualFold(label, "utf-8")
+	latin := !multi && !utf
+	val := func(attr bool) string {
+		var b []byte
+		for i, n := 0, r.Between(1, 6); i < n; i++ {
+			switch {
+			case utf:
+				b = append(b, r.PickStr("€", "é", "“x”", "–", "a", "中")...)
+			case multi:
+				if r.Chance(0.6) {
+					b = append(b, byte(r.Between(0xB0, 0xF7)), byte(r.Between(0xA1, 0xFE)))
+				} else {
+					b = append(b, "ab 1"[r.Pick(4)])
+				}
+			case r.Chance(0.45):
+				b = append(b, byte(r.Between(0x80, 0x9F))) // euro, curly quotes, dashes ... or C1 controls
+			case r.Chance(0.5):
+				b = append(b, byte(r.Between(0xA0, 0xFF)))
+			case r.Chance(0.2):
+				b = append(b, r.PickStr("&#8364;", "&amp;", "&#x93;", "&#233;")...)
+			default:
+				b = append(b, "abz 09-"[r.Pick(7)])
+			}
+		}
+		return string(b)
+	}
+	name := func(base string) string {
+		if latin && r.Chance(0.3) && !strings.HasPrefix(label, "iso-8859-7") && label != "windows-874" && label != "iso-8859-8" && label != "ibm866" && label != "macintosh" {
+			return base + string([]byte{[]byte{0xE9, 0xF1, 0xFC, 0xC0, 0xE8}[r.Pick(5)]})
+		}
+		return base
+	}
+	var sb strings.Builder
+	q := r.PickStr(`"`, `'`)
+	sb.WriteString("<?xml version=" + q + "1.0" + q + " encoding=" + q + label + q + "?>" + r.PickStr("", "\n"))
+	sb.WriteString("<" + "r " + name("a") + `="` + val(true) + `">`)
+	for i, n := 0, r.Between(1, 4); i < n; i++ {
+		switch r.Pick(4) {
+		case 0:
+			sb.WriteString(val(false))
+		case 1:
+			e := name("x")
+			sb.WriteString("<" + e + ">" + val(false) + "</" + e + ">")
+		case 2:
+			sb.WriteString("<y k='" + val(true) + "' " + name("v") + `="` + val(true) + `"/>`)
+		default:
+			sb.WriteString("<![CDATA[" + val(false) + "]]>")
+		}
+	}
+	sb.WriteString("</r>")
+	return sb.String()
+}
+
+// encodedDocs: every label once per run (fixed part), plus the euro / curly-quote witnesses.
+func encodedDocs(r *vh.Rng, sum *vh.Summary, cw *vh.CaseWriter) {
+	fixed := []string{
+		"<?xml version=\"1.0\" encoding=\"ISO-8859-1\"?><r p=\"\x80 10\">\x93quoted\x94 \x96 caf\xe9</r>",
+		"<?xml version=\"1.0\" encoding=\"us-ascii\"?><r>\x80\x85\x99</r>",
+		"<?xml version=\"1.0\" encoding=\"iso-8859-9\"?><r k='\x80\xd0\xdd\xde\xf0\xfd\xfe'>\x8c\x9c\x9f</r>",
+		"<?xml version=\"1.0\" encoding=\"gb2312\"?><r>\xd6\xd0\xce\xc4 ~{VPND~}</r>",
+	}
+	for _, text := range fixed {
+		sum.Count("xml-enc:"+text, true)
+		sum.Hist("xml:declared-encoding(fixed)")
+		runXML(sum, cw, text, nil, false)
+	}
+	for _, l := range encLabels {
+		for k := 0; k < 2; k++ {
+			text := genEncodedXML(r, l)
+			sum.Count("xml-enc:"+text, true)
+			sum.Hist("xml:declared-encoding:" + strings.ToLower(l))
+			if _, _, err := xmlTokens(text); err == nil {
+				sum.Hist("xml:declared-encoding(reference tokenises)")
+			} else {
+				sum.Hist("xml:declared-encoding(reference rejects)")
+			}
+			runXML(sum, cw, text, nil, false)
+		}
 	}
 }
